@@ -64,7 +64,7 @@ RULE = ('(1) 2-word x 1-bit MemBlock, (nw,nr) write/read ports: every content (e
         '(memory, history, back-end); distinct by its full content; non-trivial when at least one read returned a word '
         'written earlier in the run and at least one enabled write happened')
 IMPORTS = 'From PyRTL Require Import Mem.MemDefs Mem.MemHarness.'
-COQ_TARGETS = ['theories/Mem/MemHarness.vo']
+COQ_TARGETS = ['theories/Mem/MemHarness.vo', 'theories/Mem/MemVerilog.vo']
 ASSUMPTIONS = [
     'enabled write addresses within one cycle are pairwise distinct (by construction of the stimulus)',
     'CompiledSimulation is compared only with default_value = 0 (non-zero default for memories is documented as unsupported)',
@@ -322,23 +322,6 @@ def cond_inputs(rng, c, hist):
             s['m%d_bd%d' % (c.k, b)] = d
         out.append(s)
     return out
-
-
-def verilog_envs(cfgs, hists, steps):
-    """identifier -> value per cycle for the Verilog fragment interpreter: inputs plus the registers that feed ports"""
-    envs = [dict(s) for s in steps]
-    for c, h in zip(cfgs, hists):
-        for t in range(len(steps)):
-            ws, rs = h[t]
-            for i, (a, d, e) in enumerate(ws):
-                for kind, nm, v in ((c.wk[i][0], 'm%d_wa%d_r' % (c.k, i), a), (c.wk[i][1], 'm%d_wd%d_r' % (c.k, i), d),
-                                    (c.wk[i][2], 'm%d_we%d_r' % (c.k, i), e)):
-                    if kind == 'reg' and not c.tagged:
-                        envs[t][nm] = v
-            for j, a in enumerate(rs):
-                if c.rk[j] == 'reg':
-                    envs[t]['m%d_ra%d_r' % (c.k, j)] = a
-    return envs
 
 
 def port_order(nets, k):
@@ -656,76 +639,129 @@ def verilog_memory_fragment(text, cfgs, mems):
     return alias, frag
 
 
-def verilog_fragment_via_reader(text, cfgs, mems):
-    """the same fragment through the fail-closed Verilog-2001 reader written for C05 (py/verilog_reader.py);
-    returns None when that reader is not available or its interface changed"""
+VIMPORTS = 'From PyRTL Require Import Mem.MemDefs Mem.MemHarness Mem.MemVerilog.'
+
+
+class VerilogJob(object):
+    """one exported module to be run under IO/VerilogSem.v inside Coq (Mem/MemVerilog.v vlog_module_check)"""
+
+    def __init__(self, text, cfgs, mems, inits, steps, spec_reads, spec_finals, spec_mids, probes, snap, info):
+        import verilog_reader as vr
+        self.info = info
+        mod = vr.parse_module(text)              # fail closed: ReaderError
+        names = [n for n, _ in mod.inputs + mod.outputs + mod.regs + mod.wires]
+        idmap = {n: i + 1 for i, n in enumerate(names)}
+        # evaluation-order HINT for the continuous assignments (Coq re-checks every equation: settledb)
+        deps = {}
+        for lhs, e in mod.assigns:
+            acc = set()
+            mod.idents_in(e, acc)
+            deps[lhs] = acc
+        for lhs, _, a in mod.memrds:
+            deps[lhs] = {a}
+        order, done = [], set()
+
+        def visit(x, depth=0):
+            if x in done or x not in deps or depth > 10000:
+                return
+            done.add(x)
+            for y in sorted(deps[x]):
+                visit(y, depth + 1)
+            order.append(x)
+        for x in sorted(deps):
+            visit(x)
+        widths_in = dict(mod.inputs)
+        packed = []
+        for s in steps:
+            packed.append(pack([(s.get(n, 0), w) for n, w in mod.inputs]))
+        # expected outputs: the read ports of every memory (array spec, default 0) and the pass-through bit
+        exp = {}
+        for c, rd in zip(cfgs, spec_reads):
+            for j in range(c.nr):
+                exp['m%d_o%d' % (c.k, j)] = [row[j] for row in rd]
+        if 'alive_out' in dict(mod.outputs):
+            exp['alive_out'] = [s.get('alive_in', 0) for s in steps]
+        for n, _ in mod.outputs:
+            if n not in exp:
+                raise vr.ReaderError('output %s of the module is not a memory read port of the design' % n)
+        exp_outs = [pack([(exp[n][t], w) for n, w in mod.outputs]) for t in range(len(steps))]
+        self.outputs = list(mod.outputs)
+        self.exp = exp
+        pr, fin, mid = [], [], []
+        for c, m, ps, sf, sm in zip(cfgs, mems, probes, spec_finals, spec_mids):
+            for a in ps:
+                pr.append((m.id, a))
+                fin.append(sf.get(a, 0))
+                mid.append(sm.get(a, 0))
+        self.args = '%s %s [%s] %s' % (mod.coq(idmap), nlx.zlist([idmap[x] for x in order]),
+                                       '; '.join('(%d, %s)' % (m.id, hpairs(i)) for m, i in zip(mems, inits)),
+                                       hzlist(packed))
+        self.probes = '[' + '; '.join('(%d, %s)' % (i, hz(a)) for i, a in pr) + ']'
+        self.expr = 'vlog_module_check %s %s %s %s %d%%nat %s' % (self.args, hzlist(exp_outs), self.probes, hzlist(fin),
+                                                                   snap, hzlist(mid))
+        self.verbose = 'vlog_module_case %s %s' % (self.args, self.probes)
+        self.fin, self.pr = fin, pr
+
+
+def judge_verilog_jobs(ctx, jobs):
+    """evaluate the queued modules in Coq; a disagreement is explained by the verbose run and reported with the
+    concrete design, stimulus, cycle and output"""
+    if not jobs:
+        return
+    out = ctx.coq_eval([j.expr for j in jobs], VIMPORTS, tag='c08vlog', shard=2, jobs=15)
+    failed = []
+    for job, flags in zip(jobs, out):
+        flags = [bool(x) for x in flags]
+        ctx.case(('verilog', job.expr), nontrivial=True)
+        ctx.count('backend_cases', 'verilog (whole module under IO/VerilogSem.v)')
+        if not flags[0]:
+            ctx.model_mismatch('exported Verilog: the continuous assignments could not be settled with the dependency '
+                               'order computed by the harness (combinational loop in the text?)', job.info)
+        elif not all(flags[1:]):
+            failed.append((job, flags))
+    for (job, flags), v in zip(failed[:3], ctx.coq_eval([j.verbose for j, _ in failed[:3]], VIMPORTS, tag='c08vlogv',
+                                                        shard=1, jobs=3) if failed else []):
+        rows, fin = v
+        what = 'memory contents during/after the run differ from the array (flags %s)' % (flags,)
+        detail = {'final(memid, addr, got, expected)': [(i, a, g, e) for (i, a), g, e in zip(job.pr, fin, job.fin) if g != e][:5]}
+        for t, (ok, vals) in enumerate(rows):
+            bad = [(n, g, job.exp[n][t]) for (n, _), g in zip(job.outputs, vals) if g != job.exp[n][t]]
+            if bad:
+                what = 'output %s is %d at cycle %d, the array holds %d' % (bad[0][0], bad[0][1], t, bad[0][2])
+                detail['cycle'] = t
+                break
+        ctx.spec_violation('verilog:exported-module-disagrees-with-array',
+                           'exported Verilog under IO/VerilogSem.v: ' + what, dict(job.info, **detail))
+    for job, flags in failed[3:]:
+        ctx.spec_violation('verilog:exported-module-disagrees-with-array',
+                           'exported Verilog under IO/VerilogSem.v disagrees with the array (flags %s)' % (flags,), job.info)
+
+
+def queue_verilog(ctx, jobs, block, cfgs, mems, inits, hists, steps, probes, snap, info):
+    """text-shape gate on the memory fragment + (when the C05 reader accepts the text) a job for the Coq run"""
+    buf = io.StringIO()
+    pyrtl.output_to_verilog(buf, block=block)
+    text = buf.getvalue()
+    try:
+        verilog_memory_fragment(text, cfgs, mems)
+        ctx.count('verilog_memory_fragment_shape', 'ok')
+    except VerilogShapeError as e:
+        ctx.spec_violation('verilog:memory-block-shape', 'exported Verilog memory fragment: %s' % e, info)
+        return
     try:
         import verilog_reader as vr
     except Exception:
-        return None
+        ctx.count('verilog_reader(C05)', 'unavailable')
+        return
+    specs = [spec_run(i, 0, h) for i, h in zip(inits, hists)]
+    mids = [spec_run(i, 0, h[:snap])[1] for i, h in zip(inits, hists)]
     try:
-        mod = vr.parse_module(text)
-        alias = {lhs: e[1] for lhs, e in mod.assigns if e[0] == 'id'}
-        alias.update({lhs: e[1] for lhs, e in mod.assigns if e[0] == 'dec'})
-        alias.update({lhs: e[2] for lhs, e in mod.assigns if e[0] == 'sized'})
-        depth = {i: (w, d) for i, w, d in mod.mems}
-        wr = dict(mod.memwrs)
-        frag = {}
-        for c, m in zip(cfgs, mems):
-            if depth.get(m.id) != (c.dw, 1 << c.aw):
-                raise VerilogShapeError('reader: mem_%d declared %r, expected (%d, 2^%d)' % (m.id, depth.get(m.id), c.dw, c.aw))
-            frag[c.k] = ([tuple(x) for x in wr.get(m.id, [])],
-                         [(lhs, a) for lhs, i, a in mod.memrds if i == m.id])
-        return alias, frag
-    except VerilogShapeError:
-        raise
+        jobs.append(VerilogJob(text, cfgs, mems, inits, steps, [s[0] for s in specs], [s[1] for s in specs], mids,
+                               probes, snap, info))
+        ctx.count('verilog_reader(C05)', 'module parsed, queued for IO/VerilogSem.v')
     except vr.ReaderError as e:
-        # what that reader accepts (e.g. its limit on range widths) is C05's subject: fall back to the regex reader
-        if _CTX:
-            _CTX[0].count('verilog_reader(C05)', 'rejected the module: ' + str(e).split(':')[0][:50])
-        return None
-    except Exception:
-        return None
-
-
-def verilog_eval(alias, frag, cfgs, inits, steps):
-    """IEEE semantics of the fragment: continuous read assigns see the memory before the clock edge;
-    at the edge every enabled non-blocking write samples its operands, then all are applied"""
-    def val(name, env):
-        seen = 0
-        while name not in env:
-            if isinstance(name, int):
-                return name
-            if name.isdigit():
-                return int(name)
-            if name not in alias or seen > 50:
-                raise VerilogShapeError('cannot resolve %s to an input, a port register or a constant' % name)
-            name = alias[name]
-            seen += 1
-        return env[name]
-    mem = {c.k: dict(i) for c, i in zip(cfgs, inits)}
-    reads = {c.k: [] for c in cfgs}
-    for s in steps:
-        for c in cfgs:
-            writes, rds = frag[c.k]
-            out = {}
-            for dest, idx in rds:
-                out[dest] = mem[c.k].get(val(idx, s), 0)
-            row = []
-            for j in range(c.nr):
-                name = 'm%d_o%d' % (c.k, j)
-                seen = 0
-                while name not in out:
-                    if name not in alias or seen > 50:
-                        raise VerilogShapeError('output %s is not driven by a memory read' % name)
-                    name = alias[name]
-                    seen += 1
-                row.append(out[name])
-            reads[c.k].append(row)
-            pending = [(val(a, s), val(d, s)) for (en, a, d) in writes if val(en, s)]
-            for a, d in pending:
-                mem[c.k][a] = d
-    return [reads[c.k] for c in cfgs], [mem[c.k] for c in cfgs]
+        # what that reader accepts (e.g. its 65536-bit limit on ranges: memories deeper than 2^16 words) is C05's subject
+        ctx.count('verilog_reader(C05)', 'rejected the module: ' + str(e).split(':')[0][:50])
 
 
 # ------------------------------------------------------------------ Coq expression helpers
@@ -1128,6 +1164,7 @@ def random_part(ctx, chk, ndesigns, ncyc_range, compiled_every, post_every, veri
             ctx.count('address_construction', 'concat(Input,Const tag)' if c.tagged else 'free Input')
         ctx.count('cycles', ncyc // 10 * 10)
     # ---- run the real back-ends
+    vjobs = []
     for case in cases:
         cfgs, dflt, steps, inits = case['cfgs'], case['dflt'], case['steps'], case['inits']
         di = case['di']
@@ -1177,26 +1214,10 @@ def random_part(ctx, chk, ndesigns, ncyc_range, compiled_every, post_every, veri
                                            {'seed': ctx.seed, 'design': di, 'memories': [c.desc() for c in sub]})
                     for c, m in zip(cfgs, mems):
                         c.mem = m
-        if di % verilog_every == 0 and not any(c.tagged or c.branches for c in cfgs):
-            buf = io.StringIO()
-            try:
-                pyrtl.output_to_verilog(buf, block=block)
-                alias, frag = verilog_memory_fragment(buf.getvalue(), cfgs, mems)
-                via = verilog_fragment_via_reader(buf.getvalue(), cfgs, mems)
-                if via is None:
-                    ctx.count('verilog_reader(C05)', 'not used')
-                else:
-                    ctx.count('verilog_reader(C05)', 'used')
-                    same = all(sorted(via[1][c.k][0]) == sorted(frag[c.k][0]) and
-                               sorted(via[1][c.k][1]) == sorted(frag[c.k][1]) for c in cfgs)
-                    if not same:
-                        ctx.model_mismatch('the regex reader of this check and py/verilog_reader.py extract different '
-                                           'memory fragments from the exported Verilog', {'design': di})
-                    alias, frag = via
-                res['verilog'] = verilog_eval(alias, frag, cfgs, inits, verilog_envs(cfgs, case['hists'], steps))
-            except VerilogShapeError as e:
-                ctx.spec_violation('verilog:memory-block-shape', 'exported Verilog memory fragment: %s' % e,
-                                   {'seed': ctx.seed, 'design': di, 'memories': [c.desc() for c in cfgs]})
+        if di % verilog_every == 0 or all(c.aw <= 16 for c in cfgs):
+            queue_verilog(ctx, vjobs, block, cfgs, mems, inits, case['hists'], steps, case['probes'], case['ncyc'] // 2,
+                          {'seed': ctx.seed, 'tier': ctx.tier, 'design': di, 'memories': [c.desc() for c in cfgs],
+                           'memory_value_maps': inits, 'histories': case['hists']})
         if di % post_every == 0:
             info = {'seed': ctx.seed, 'tier': ctx.tier, 'design': di, 'memories': [c.desc() for c in cfgs],
                     'memory_value_maps': inits, 'default_value': dflt, 'histories': case['hists']}
@@ -1240,6 +1261,7 @@ def random_part(ctx, chk, ndesigns, ncyc_range, compiled_every, post_every, veri
             del res[name]
     _PASS_EMPTY[0] = False
     _SNAP[0] = None
+    judge_verilog_jobs(ctx, vjobs)
     # ---- Coq: the array spec and the three models decide, inside Coq, whether they agree with what
     #      the implementation produced (compact protocol, see Mem/MemHarness.v mem_check)
     exprs = []
@@ -1311,10 +1333,6 @@ def random_part(ctx, chk, ndesigns, ncyc_range, compiled_every, post_every, veri
                                      'probes', tie=(comp_r, comp_f))
                     if not ok and c.aw > 64 and len(details) < 3:
                         details.append((case, mi))
-                elif backend == 'verilog':
-                    v_reads, v_final = spec_run(init, 0, hist)
-                    chk.compare(c, backend, init, 0, hist, v_reads, v_final, r[0][mi], list(r[1][mi].items()), probes,
-                                replay, 'items')
                 else:
                     tie = {'sim': (sim_r, sim_d), 'fast': (fast_r, fast_d)}.get(backend, (sim_r, None))
                     chk.compare(c, backend, init, dflt, hist, py_reads, py_final, r[0][mi], r[1][mi], probes, replay,
@@ -1495,7 +1513,7 @@ def sweep_part(ctx, chk, configs, dflts):
 
 def walk_part(ctx, chk, walks):
     """De Bruijn walks: every sequence of `order` consecutive operation tuples"""
-    exprs, meta = [], []
+    exprs, meta, vjobs = [], [], []
     for walk in walks:
         (nw, nr, order, inits, dflts), opt = walk[:5], (walk[5] if len(walk) > 5 else {})
         # opt: operand sources of the ports ('wk', 'rk'), the sub-alphabet of operations they can present ('pred')
@@ -1539,6 +1557,8 @@ def walk_part(ctx, chk, walks):
                         res[name + '/compiled'] = guarded(ctx, name + '/compiled', info, comp)
                 for name in [n for n, r in res.items() if r is None]:
                     del res[name]
+                if dflt == 0 and content == inits[0]:
+                    queue_verilog(ctx, vjobs, block, [cfg], [mem], [content], [hist], steps, [[0, 1]], len(hist) // 2, info)
                 p_comp = res['compiled'][2][0] if 'compiled' in res else ident(nw)
                 py_reads, py_final = spec_run(content, dflt, hist)
                 bits = max(1, (len(ops) - 1).bit_length())
@@ -1551,6 +1571,7 @@ def walk_part(ctx, chk, walks):
                 meta.append((cfg, hist, dflt, content, res, order, py_reads, py_final))
                 ctx.count('walk_cycles', '%dw%dr order %d, port operands: %s' % (nw, nr, order, cfg.label), len(hist))
     _SNAP[0] = None
+    judge_verilog_jobs(ctx, vjobs)
     out = ctx.coq_eval(exprs, IMPORTS, tag='c08walk', shard=1, jobs=15)
     for (cfg, hist, dflt, content, res, order, py_reads, py_final), v in zip(meta, out):
         flags, finals = [bool(x) for x in v[0]], v[1]
@@ -1616,7 +1637,7 @@ def twin_part(ctx, chk, order, init_pairs, dflts):
     steps = [{'wa': a, 'ra': r, 'm0_wd0': d0, 'm0_we0': e0, 'm1_wd0': d1, 'm1_we0': e1} for (a, r, d0, e0, d1, e1) in seq]
     ops11 = ok_ops(1, 1)
     index11 = {repr(op): i for i, op in enumerate(ops11)}
-    exprs, meta = [], []
+    exprs, meta, vjobs = [], [], []
     for dflt in dflts:
         for inits in init_pairs:
             block, cfgs = build_twin()
@@ -1636,6 +1657,9 @@ def twin_part(ctx, chk, order, init_pairs, dflts):
             res['synth'] = run_post(ctx, pyrtl.Simulation, post, cfgs, pm, inits, dflt, steps, 'synthesize')
             pyrtl.optimize(update_working_block=True, block=post)
             res['synth+opt'] = run_post(ctx, pyrtl.Simulation, post, cfgs, pm, inits, dflt, steps, 'optimize')
+            if dflt == 0:
+                queue_verilog(ctx, vjobs, block, cfgs, mems, inits, hists, steps, [[0, 1], [0, 1]], len(seq) // 2,
+                              {'tier': ctx.tier, 'design': 'twin', 'memory_value_maps': inits})
             for k in (0, 1):
                 hist = hists[k]
                 py_reads, py_final = spec_run(inits[k], dflt, hist)
@@ -1648,6 +1672,7 @@ def twin_part(ctx, chk, order, init_pairs, dflts):
                 meta.append((cfgs[k], k, hist, dflt, inits, res, py_reads, py_final))
             ctx.count('twin_walk_cycles', 'order %d, entries in memory_value_map: %s' % (
                 order, '+'.join('yes' if i else 'no' for i in inits)), len(seq))
+    judge_verilog_jobs(ctx, vjobs)
     out = ctx.coq_eval(exprs, IMPORTS, tag='c08twin', shard=1, jobs=15)
     for (cfg, k, hist, dflt, inits, res, py_reads, py_final), v in zip(meta, out):
         flags, finals = [bool(x) for x in v[0]], v[1]
